@@ -14,6 +14,7 @@ SPEC = {
         "Go harness harness/cmd/c07, the add-only observation points in livesql/live.go (tracker add / remove / process, under the tracker's mutex) and the verif-tagged constructor livesql/verif_binlog.go",
     ],
     "assumptions": [
+        "schema changes (ALTER TABLE: columns reordered / swapped among columns of one type / added / dropped, or the table merely reopened) give the table a new TableID announced by a TableMapEvent; the column map in force for an event is the one information_schema gives for the version it was written under (the model keys table metadata by name#TableID). The harness alters a table only while the binlog is drained: livesql documents that reading a schema newer than events still in flight is a race it does not handle",
         "binlog events are delivered in commit order; a decodable event decodes to the write's row images (theorem faithful_event_decodes_to_the_write, from the C13 round trip)",
         "filter values have the column's Go base type (pointer or not); a mistyped value (string for an integer column) is compared by MySQL after coercion but never matches in the tester: outside the theorem",
         "quiescence is judged on the model's state (all events delivered, every query's latest registration not invalidated); fairness of the Go scheduler is not modelled",
